@@ -106,15 +106,15 @@ type Violation struct {
 
 // CaseResult is what running one case produced.
 type CaseResult struct {
-	Index        int               `json:"index"`
-	Evaluations  int               `json:"evaluations"`            // oracle evaluations inside the case
-	Fingerprints []string          `json:"fingerprints,omitempty"` // distinct non-trivial fingerprints
-	Counters     map[string]int    `json:"counters,omitempty"`
+	Index        int                 `json:"index"`
+	Evaluations  int                 `json:"evaluations"`            // oracle evaluations inside the case
+	Fingerprints []string            `json:"fingerprints,omitempty"` // distinct non-trivial fingerprints
+	Counters     map[string]int      `json:"counters,omitempty"`
 	Sets         map[string][]string `json:"sets,omitempty"` // named sets of distinct observed things
-	Sample       interface{}       `json:"sample,omitempty"`
-	Violations   []Violation       `json:"violations,omitempty"`
-	Inconclusive []string          `json:"inconclusive,omitempty"`
-	Fatal        string            `json:"fatal,omitempty"` // harness fault
+	Sample       interface{}         `json:"sample,omitempty"`
+	Violations   []Violation         `json:"violations,omitempty"`
+	Inconclusive []string            `json:"inconclusive,omitempty"`
+	Fatal        string              `json:"fatal,omitempty"` // harness fault
 }
 
 // T is handed to a case.
@@ -230,8 +230,9 @@ type Property struct {
 	Cases func(tier string, seed int64) int
 	// Run executes case idx.
 	Run func(t *T)
-	// Race: the check is additionally (or only) run with the -race binary.
-	Race bool
+	// Race: a -race build is needed; UseRace tells which cases run under it.
+	Race    bool
+	UseRace func(tier string, idx int) bool
 	// Serial: cases must not run in parallel children (e.g. cpu-bound timing); default parallel.
 	MaxProcs int
 	// PanicIsViolation: a panic raised inside Run (from repo code) is a violation of this
@@ -379,14 +380,24 @@ func trimStack(s string) string {
 	return s
 }
 
-// ChildMain runs the cases idx ≡ k (mod n) and writes results as JSON lines.
-func ChildMain(id, tier string, seed int64, k, n int, outPath, workDir string) int {
+// ChildMain runs the cases listed (one index per line) in idxFile and writes results as JSON lines.
+func ChildMain(id, tier string, seed int64, idxFile string, outPath, workDir string) int {
 	p := Lookup(id)
 	if p == nil {
 		fmt.Fprintln(os.Stderr, "unknown property", id)
 		return 2
 	}
-	total := p.Cases(tier, seed)
+	ib, err := ioutil.ReadFile(idxFile)
+	if err != nil {
+		fmt.Fprintln(os.Stderr, err)
+		return 2
+	}
+	var indices []int
+	for _, f := range strings.Fields(string(ib)) {
+		if x, err := strconv.Atoi(f); err == nil {
+			indices = append(indices, x)
+		}
+	}
 	f, err := os.OpenFile(outPath, os.O_CREATE|os.O_WRONLY|os.O_APPEND, 0o644)
 	if err != nil {
 		fmt.Fprintln(os.Stderr, err)
@@ -396,7 +407,7 @@ func ChildMain(id, tier string, seed int64, k, n int, outPath, workDir string) i
 	journal, _ := os.OpenFile(outPath+".journal", os.O_CREATE|os.O_WRONLY|os.O_APPEND, 0o644)
 	defer journal.Close()
 	skip := skipSet()
-	for idx := k; idx < total; idx += n {
+	for _, idx := range indices {
 		if skip[idx] {
 			continue
 		}
@@ -424,15 +435,15 @@ func envInt(name string, def int64) int64 {
 }
 
 type RunOpts struct {
-	VerifDir string
-	ID       string
-	Tier     string
-	Seed     int64
-	Binary   string // path of the binary to re-exec; default os.Args[0]
+	VerifDir   string
+	ID         string
+	Tier       string
+	Seed       int64
+	Binary     string // path of the binary to re-exec; default os.Args[0]
 	RaceBinary string // -race build of the same program (for properties with Race set)
-	Procs    int
-	OnlyCase int // >=0: run exactly this case in-process (replay)
-	ExtraEnv []string
+	Procs      int
+	OnlyCase   int // >=0: run exactly this case in-process (replay)
+	ExtraEnv   []string
 }
 
 // RunParent splits the case list over child processes and merges.
@@ -461,28 +472,84 @@ func RunParent(o RunOpts) (*Merged, error) {
 	if p.MaxProcs > 0 && procs > p.MaxProcs {
 		procs = p.MaxProcs
 	}
-	if procs > total {
-		procs = total
-	}
-	if procs < 1 {
-		procs = 1
-	}
 	bin := o.Binary
 	if bin == "" {
 		bin = os.Args[0]
 	}
+	// partition the case list
+	var normal, raced []int
+	for idx := 0; idx < total; idx++ {
+		if p.Race && p.UseRace != nil && p.UseRace(o.Tier, idx) && o.RaceBinary != "" {
+			raced = append(raced, idx)
+		} else {
+			normal = append(normal, idx)
+		}
+	}
+	type job struct {
+		bin     string
+		indices []int
+		race    bool
+	}
+	var jobs []job
+	split := func(list []int, n int, b string, race bool) {
+		if len(list) == 0 {
+			return
+		}
+		if n > len(list) {
+			n = len(list)
+		}
+		if n < 1 {
+			n = 1
+		}
+		parts := make([][]int, n)
+		for i, idx := range list {
+			parts[i%n] = append(parts[i%n], idx)
+		}
+		for _, part := range parts {
+			jobs = append(jobs, job{b, part, race})
+		}
+	}
+	nRace := 0
+	if len(raced) > 0 {
+		nRace = procs * len(raced) * 4 / (len(raced)*4 + len(normal) + 1)
+		if nRace < 1 {
+			nRace = 1
+		}
+		if len(normal) == 0 {
+			nRace = procs
+		}
+	}
+	nNorm := procs - nRace
+	if nNorm < 1 {
+		nNorm = 1
+	}
+	split(normal, nNorm, bin, false)
+	split(raced, nRace, o.RaceBinary, true)
+
 	var wg sync.WaitGroup
 	var mu sync.Mutex
-	for k := 0; k < procs; k++ {
+	raceLogs := []string{}
+	for k, jb := range jobs {
 		wg.Add(1)
-		go func(k int) {
+		go func(k int, jb job) {
 			defer wg.Done()
 			out := filepath.Join(workDir, fmt.Sprintf("child-%d.jsonl", k))
+			idxFile := filepath.Join(workDir, fmt.Sprintf("child-%d.idx", k))
+			var sb strings.Builder
+			for _, idx := range jb.indices {
+				fmt.Fprintf(&sb, "%d\n", idx)
+			}
+			ioutil.WriteFile(idxFile, []byte(sb.String()), 0o644)
+			raceLog := filepath.Join(workDir, fmt.Sprintf("race-%d", k))
+			if jb.race {
+				mu.Lock()
+				raceLogs = append(raceLogs, raceLog)
+				mu.Unlock()
+			}
 			doneSet := map[int]bool{}
 			for attempt := 0; attempt < 1000; attempt++ {
-				// which cases of this stride remain?
 				remaining := 0
-				for idx := k; idx < total; idx += procs {
+				for _, idx := range jb.indices {
 					if !doneSet[idx] {
 						remaining++
 					}
@@ -496,15 +563,17 @@ func RunParent(o RunOpts) (*Merged, error) {
 				for idx := range doneSet {
 					skip = append(skip, strconv.Itoa(idx))
 				}
-				cmd := exec.Command(bin, "child", o.ID, o.Tier, strconv.FormatInt(o.Seed, 10), strconv.Itoa(k), strconv.Itoa(procs), out, workDir)
+				cmd := exec.Command(jb.bin, "child", o.ID, o.Tier, strconv.FormatInt(o.Seed, 10), idxFile, out, workDir)
 				cmd.Env = append(os.Environ(), "VERIF_SKIP="+strings.Join(skip, ","))
+				if jb.race {
+					cmd.Env = append(cmd.Env, "GORACE=halt_on_error=0 history_size=5 log_path="+raceLog, "VERIF_RACE=1")
+				}
 				cmd.Env = append(cmd.Env, o.ExtraEnv...)
-				logf, _ := os.Create(out + ".log")
+				logf, _ := os.OpenFile(out+".log", os.O_CREATE|os.O_WRONLY|os.O_TRUNC, 0o644)
 				cmd.Stdout = logf
 				cmd.Stderr = logf
 				err := cmd.Run()
 				logf.Close()
-				// read results
 				b, _ := ioutil.ReadFile(out)
 				mu.Lock()
 				for _, line := range strings.Split(string(b), "\n") {
@@ -523,10 +592,9 @@ func RunParent(o RunOpts) (*Merged, error) {
 				if err == nil {
 					return
 				}
-				// child died: attribute to the case in the journal
-				jb, _ := ioutil.ReadFile(out + ".journal")
+				jbuf, _ := ioutil.ReadFile(out + ".journal")
 				last := -1
-				for _, l := range strings.Split(string(jb), "\n") {
+				for _, l := range strings.Split(string(jbuf), "\n") {
 					var x int
 					if n, _ := fmt.Sscanf(l, "start %d", &x); n == 1 {
 						last = x
@@ -538,21 +606,27 @@ func RunParent(o RunOpts) (*Merged, error) {
 					doneSet[last] = true
 					mu.Lock()
 					m.Executed++
-					if ee, ok := err.(*exec.ExitError); ok && ee.ExitCode() == 3 {
-						// recycle request, handled above
-					} else {
-						frame := topRepoFrame(logTxt)
-						m.Violations = append(m.Violations, Violation{
-							Signature: "crash:" + frame,
-							Message:   fmt.Sprintf("child process died while running case %d: %v", last, err),
-							Witness:   tail(logTxt, 8000), Case: last})
-					}
+					frame := topRepoFrame(logTxt)
+					m.Violations = append(m.Violations, Violation{
+						Signature: "crash:" + frame,
+						Message:   fmt.Sprintf("child process died while running case %d: %v", last, err),
+						Witness:   tail(logTxt, 8000), Case: last})
 					mu.Unlock()
+				} else if last < 0 {
+					// died before the first case: harness fault
+					lb, _ := ioutil.ReadFile(out + ".log")
+					mu.Lock()
+					m.Fatals = append(m.Fatals, fmt.Sprintf("child %d died before its first case: %v: %s", k, err, tail(string(lb), 2000)))
+					mu.Unlock()
+					return
 				}
 			}
-		}(k)
+		}(k, jb)
 	}
 	wg.Wait()
+	if len(raceLogs) > 0 {
+		collectRaces(m, workDir, raceLogs)
+	}
 	return m, nil
 }
 
